@@ -51,6 +51,9 @@ def run(ctx):
             out.append(c)
         return out
     std.m2(ctx, "c02", "Shuffle_Trace", "Shuffle_Trace.cfg", 1600 if ctx.quick else 40000, negs, shards=8, jvms=1, evkeys=KEYS)
+    if not ctx.quick:
+        from .. import suite
+        suite.suite_lane(ctx, ["tests/test_ersatz.py", "tests/test_ablate.py"], ["ersatz.shuffle", "ersatz.dinucleotide_shuffle"], clauses=("tensor",))
     ctx.assumptions += ["the pure-Python body of _fast_shuffle (py_func) is what numba compiles; the compiled path is exercised by M2",
                         "dinucleotide_shuffle: a raise is never a violation except for n=1 with an in-range region of length >= 3; "
                         "end=-1 is read as 'to the end' (the relation holds for both readings)"]
